@@ -47,7 +47,8 @@ REQUIRED_THEOREMS = ["reader_eq_spec", "reader_segmentation_invariant", "reader_
                      "ws_close_drain_bounded", "ws_close_drain_idle", "ws_close_drain_recv", "ws_read_data_fits",
                      "ws_reader_no_oob", "ws_reader_final_state",
                      "ws_read_fits", "ws_read_keeps_ok", "ws_read_data_dest_in_bounds", "ws_read_next_frame_terminates",
-                     "ws_close_drain_fits", "ws_close_drain_in_bounds", "ws_close_terminates", "ws_frames_states_ok",
+                     "ws_close_drain_fits", "ws_close_drain_in_bounds", "ws_close_terminates", "ws_frames_states_ok", "ws_reader_states_ok",
+                     "ws_read_closed_cases", "ws_self_close_classified",
                      "ws_close_drain_socket_empty", "ws_close_drain_close_unseen", "ws_close_drain_oversize_stuck",
                      "ws_close_drain_refused_stuck"]
 RULE = ("(byte stream, segmentation) pairs replayed into the real coap_read_session of a TCP / WebSocket session whose lowest "
